@@ -93,9 +93,6 @@ def library(n_small=2, n_big=3):
     # bindings with several targets: one DeployStep / connector port per target, every ScheduleStep reads them all
     out.append(dict(_d("xx2t", [S("e1", "exec", ["in"], ["p1"]), S("e2", "exec", ["p1"], ["out"])], {"in": [V(1)]}, ["out"],
                        {"jobs", "pipeline", "multi-target"}), targets=2))
-    out.append(dict(_d("sxg3t", [S("sc", "scatter", ["in"], ["el", "sz"]), S("ex", "exec", ["el"], ["ex"]),
-                                 S("ga", "gather", ["ex", "sz"], ["out"])],
-                       {"in": [L(range(1, n_small + 1))]}, ["out"], {"scatter-gather", "jobs", "multi-target"}), targets=3))
     out.append(_d("deadend", [S("sc", "scatter", ["in"], ["el", "sz"]), S("f1", "fwd", ["el"], ["e2"]),
                               S("ga", "gather", ["e2", "sz"], ["out"]), S("dead", "fwd", ["sz"], ["nowhere"])],
                   {"in": [L([1, 2])]}, ["out"], {"scatter-gather", "dead-end"}))
